@@ -117,3 +117,35 @@ Example C04_example :
   option_map erase (match merge2 [] old new with Ok n => Some n | _ => None end)
   = Some (PD [(KS 1, PD [(KS 2, PD [(KS 1, PS (SInt 1))])])]).
 Proof. vm_compute. reflexivity. Qed.
+
+(* ---- exactness at any depth (extension round 7).  C04_exact speaks about the two nodes that meet; this composes it with the general frame
+   machinery (Proofs/Frame.v: merged_deep): where the older tree holds a mapping at the mapping path q ([dget]) and the newer tree reaches a
+   deleting container v there through non-deleting mappings with unique keys ([nreach]) - and, as in C04_exact, nothing below the older
+   mapping outranks v, v is not outranked, v may create its paths - the merged tree holds at q exactly v's content, whatever surrounds the
+   path.  [idiom n v]: the emptied outcome of a !del value, for which the loop removes the key instead (C04_remove_key). ---- *)
+From AY Require Import Proofs.Frame Proofs.FrameDelete.
+Theorem C04_exact_at_any_depth : forall q fuel p s o r w v fs xs chs,
+  q <> [] -> on_merge [] fuel p s o = Ok (r, w) -> nreach o q v -> dget s q = Some (Comp CDict fs xs chs) ->
+  is_comp v = true -> delete v = true ->
+  (forall p' : path, AllSub (fun m => forall ap, has_priority_over m (first_not_missing v (skipn (length p') ap)) false = false) (Comp CDict fs xs chs)) ->
+  has_priority_over v (clear_children (Comp CDict fs xs chs)) true = true ->
+  (forall p' removed, require_all_new v p' (p' :: removed) true = true) ->
+  exists n, content n = content v /\ (idiom n v = false -> exists c', dget r q = Some c' /\ content c' = content v).
+Proof. exact delete_exact_deep. Qed.
+Print Assumptions C04_exact_at_any_depth.
+
+(* non-vacuity: {a: {b: {x: 1, y: 2}, c: !force 3}} <- {a: {b: !del {z: 9}}}: at a.b exactly {z: 9}; the !force sibling is kept *)
+Example C04_deep_example :
+  let L f v := Leaf LScalar f (SInt v) in
+  let D f ch := Comp CDict f SNone ch in
+  let s := D F0 [(KS 1, D F0 [(KS 2, D F0 [(KS 7, L F0 1); (KS 8, L F0 2)]); (KS 3, L (set_prio F0 (Some 1)) 3)])] in
+  let v := D (set_del F0 (Some true)) [(KS 9, L F0 9)] in
+  let o := D F0 [(KS 1, D F0 [(KS 2, v)])] in
+  nreach o [KS 1; KS 2] v /\ delete v = true /\
+  (match on_merge [] 10 [] s o with Ok (r, _) => Some (erase r) | _ => None end)
+  = Some (PD [(KS 1, PD [(KS 2, PD [(KS 9, PS (SInt 9))]); (KS 3, PS (SInt 3))])]).
+Proof.
+  cbn zeta. split; [|split; vm_compute; reflexivity].
+  cbn. repeat split; try reflexivity;
+    repeat (constructor; cbn [map fst In]; try (intros [E|E]; [discriminate E|]); try tauto).
+Qed.
